@@ -81,6 +81,8 @@ MUTANTS: dict[str, dict[str, list[tuple[str, str, str]]]] = {
                            'temp = path\n        if False:')],
     },
     'C04': {
+        'latest-resolved-per-task-copy': [('forml/io/asset/_access.py', '            self._generation.key  # pylint: disable=pointless-statement',
+                                           '            pass')],
         'derived-depends-on-lifetimes-again': [('forml/flow/_graph/atomic.py',
                                                 ' or (self._group.trained and not self.trained)', '')],
         'state-load-offset-shifted': [('forml/io/asset/_access.py', 'return self._generation.get(self.offset(gid))',
